@@ -271,7 +271,9 @@ func (c *ConcCtx) mutexOp(e *Exec, st *State, p Ptr, rw bool, method, site strin
 		}
 		ev := c.emit(st, kind, loc, site)
 		ev.Pair = stack[len(stack)-1]
-		stack[len(stack)-1].Pair = ev
+		// a lock event shared by several paths can be released by a different unlock event on each of them
+		lk0 := stack[len(stack)-1]
+		lk0.Aux = append(lk0.Aux, ev)
 		th.held[loc+lk] = stack[:len(stack)-1]
 	default:
 		fail("mutex method %s unsupported in concurrent mode", method)
@@ -657,6 +659,32 @@ func (c *ConcCtx) build(e *Exec) {
 		lo, hi := 0, len(phi)
 		r, _ := e.solver.Check(phi, 60000, false)
 		fmt.Fprintf(os.Stderr, "conc debug: %d constraints, all together: %s\n", len(phi), r)
+		if k := os.Getenv("VERIF_CONCDEBUG_EV"); k != "" {
+			for _, ev := range c.events {
+				if ev.Kind != k {
+					continue
+				}
+				// which constraints (minimal prefix-deletion set) forbid this event from executing?
+				r, _ := e.solver.Check(append([]*Term{ev.Guard}, phi...), 60000, false)
+				fmt.Fprintf(os.Stderr, "conc debug: event %d (%s %s) executable: %s\n", ev.ID, ev.Kind, ev.Site, r)
+				if r == "unsat" {
+					keep := append([]*Term(nil), phi...)
+					for i := 0; i < len(keep); {
+						try := append(append([]*Term{ev.Guard}, keep[:i]...), keep[i+1:]...)
+						rr, _ := e.solver.Check(try, 60000, false)
+						if rr == "unsat" {
+							keep = append(keep[:i:i], keep[i+1:]...)
+						} else {
+							i++
+						}
+					}
+					for _, t := range keep {
+						fmt.Fprintf(os.Stderr, "   core: %s\n", t.str(7))
+					}
+				}
+				break
+			}
+		}
 		if r == "unsat" {
 			for lo < hi {
 				mid := (lo + hi) / 2
@@ -728,15 +756,16 @@ func (c *ConcCtx) encodeAtomic(loc string, evs []*Event, add func(*Term)) {
 }
 
 type section struct {
-	lock, unlock *Event
-	reader       bool
+	lock    *Event
+	unlocks []*Event
+	reader  bool
 }
 
 func (c *ConcCtx) encodeMutex(evs []*Event, add func(*Term)) {
 	var secs []section
 	for _, ev := range evs {
 		if ev.Kind == "lock" || ev.Kind == "rlock" {
-			secs = append(secs, section{lock: ev, unlock: ev.Pair, reader: ev.Kind == "rlock"})
+			secs = append(secs, section{lock: ev, unlocks: ev.Aux, reader: ev.Kind == "rlock"})
 		}
 	}
 	for i := 0; i < len(secs); i++ {
@@ -749,17 +778,14 @@ func (c *ConcCtx) encodeMutex(evs []*Event, add func(*Term)) {
 				continue // ordered by program order (self-deadlock is checked by the deadlock query)
 			}
 			both := And(a.lock.Guard, b.lock.Guard)
-			var aBeforeB, bBeforeA *Term
-			if a.unlock != nil {
-				aBeforeB = And(a.unlock.Guard, lt(a.unlock.Clk, b.lock.Clk))
-			} else {
-				aBeforeB = False
+			before := func(x, y section) *Term {
+				var opts []*Term
+				for _, u := range x.unlocks {
+					opts = append(opts, And(u.Guard, lt(u.Clk, y.lock.Clk)))
+				}
+				return Or(opts...)
 			}
-			if b.unlock != nil {
-				bBeforeA = And(b.unlock.Guard, lt(b.unlock.Clk, a.lock.Clk))
-			} else {
-				bBeforeA = False
-			}
+			aBeforeB, bBeforeA := before(a, b), before(b, a)
 			add(Implies(both, Or(aBeforeB, bBeforeA)))
 		}
 	}
